@@ -73,7 +73,7 @@ package nfs
 
 //@ define TXALLOC fstxn.FsTxn, alloctxn.AllocTxn, jrnl.Op, []uint64, map[uint64]*inode.Inode, cache.Cslot, inode.Inode, buf.Buf, marshal.Dec, marshal.Enc, cell:uint64, []uint8, addr.Addr
 //@ define TXMODS held, lastst, curop, freshinum, wroteinum, cphase, abits, dirtyinum, cache.Cslot.Obj, map[uint64]*inode.Inode, nfs.Nfs.stats
-//@ define SHRINKMODS muheld, inode.Inode.ShrinkSize, []uint64@inode.Inode.blks, []uint64@alloctxn.AllocTxn.freeBnums, alloctxn.AllocTxn.freeBnums, buf.Buf.dirty, []uint8@buf.Buf.Data, zeroed
+//@ define SHRINKMODS shrinkdue, muheld, inode.Inode.ShrinkSize, []uint64@inode.Inode.blks, []uint64@alloctxn.AllocTxn.freeBnums, alloctxn.AllocTxn.freeBnums, buf.Buf.dirty, []uint8@buf.Buf.Data, zeroed
 //@ define FILEMODS tailzeroedto, inode.Inode.Size, inode.Inode.ShrinkSize, inode.Inode.Atime, inode.Inode.Mtime, inode.Inode.Kind, inode.Inode.Nlink, inode.Inode.Gen, inode.Inode.Inum, inode.Inode.Dcache, []uint64@inode.Inode.blks, alloctxn.AllocTxn.allocBnums, []uint64@alloctxn.AllocTxn.allocBnums, alloctxn.AllocTxn.freeBnums, []uint64@alloctxn.AllocTxn.freeBnums, alloctxn.AllocTxn.allocInums, []uint64@alloctxn.AllocTxn.allocInums, alloctxn.AllocTxn.freeInums, []uint64@alloctxn.AllocTxn.freeInums, buf.Buf.dirty, []uint8@buf.Buf.Data, zeroed, nldec
 //@ define DIRMODS emptychecked, dcache.Dcache.Lastoff, nfstypes.Entry3, cell:*nfstypes.Entry3, nfstypes.Entryplus3, cell:*nfstypes.Entryplus3, map[string]dcache.Dentry, emitted, emitany, emitlast, lastcookie, lastfileid, lastname, lasthino, lasthgen, lastattrid
 //@ define DIRALLOC dir.dirEnt, dcache.Dcache, map[string]dcache.Dentry, nfstypes.Entry3, nfstypes.Entryplus3
@@ -152,6 +152,7 @@ package nfs
 //@   requires rpcPre(nfs)
 //@   allocates $TXALLOC, nfstypes.WRITE3res, nfstypes.WRITE3args
 //@   modifies $TXMODS, $FILEMODS, $SHRINKMODS
+//@   ensures [F2-scheduled] forall j uint64 :: shrinkdue[j] ==> old(shrinkdue)[j] @C05
 //@   ensures [W1-stable] result.Status == 0 && result.Resok.Committed != 0 ==> lastst == 1 @C07 @C01
 //@   ensures [W1-unstable] result.Status == 0 ==> lastst == 1 || lastst == 2 @C07
 //@   ensures [W1-level] result.Status == 0 ==> result.Resok.Committed == args.Stable || result.Resok.Committed == 2 @C07
@@ -170,6 +171,7 @@ package nfs
 //@   requires rpcPre(nfs)
 //@   allocates $TXALLOC, nfstypes.SETATTR3res, struct:struct{}
 //@   modifies $TXMODS, $FILEMODS, $SHRINKMODS, shrinker.ShrinkerSt.nthread
+//@   ensures [F2-scheduled] forall j uint64 :: shrinkdue[j] ==> old(shrinkdue)[j] @C05
 //@   ensures [R2-durable] result.Status == 0 ==> lastst == 1 @C01 @C07
 //@   ensures [A1-aborted] result.Status != 0 ==> lastst == 3 || lastst == 4 @C09
 //@   ensures [Q3-fbig] args.New_attributes.Size.Set_it && uint64(args.New_attributes.Size.Size) > 1073774592 ==> result.Status != 0 @C19
@@ -355,7 +357,8 @@ package nfs
 //@   requires [I5-emptydir] ip.Kind == 2 ==> emptychecked[ip.Inum] || freshinum[ip.Inum] @C04 @C02
 //@   requires [I6-dotdot] ip.Kind == 2 ==> freshinum[ip.Inum] || (exists p uint64 :: nldec[p]) @C04 @C05
 //@   allocates $TXALLOC, struct:struct{}
-//@   modifies ip.Nlink, ip.Kind, ip.Gen, ip.Size, ip.ShrinkSize, ip.blks[*], dirtyinum, wroteinum, abits, muheld, shrinker.ShrinkerSt.nthread, alloctxn.AllocTxn.allocBnums, []uint64@alloctxn.AllocTxn.allocBnums, alloctxn.AllocTxn.freeBnums, []uint64@alloctxn.AllocTxn.freeBnums, alloctxn.AllocTxn.freeInums, []uint64@alloctxn.AllocTxn.freeInums, buf.Buf.dirty, []uint8@buf.Buf.Data, zeroed, tailzeroedto, nldec
+//@   modifies ip.Nlink, ip.Kind, ip.Gen, ip.Size, ip.ShrinkSize, ip.blks[*], dirtyinum, wroteinum, abits, muheld, shrinker.ShrinkerSt.nthread, alloctxn.AllocTxn.allocBnums, []uint64@alloctxn.AllocTxn.allocBnums, alloctxn.AllocTxn.freeBnums, []uint64@alloctxn.AllocTxn.freeBnums, alloctxn.AllocTxn.freeInums, []uint64@alloctxn.AllocTxn.freeInums, buf.Buf.dirty, []uint8@buf.Buf.Data, zeroed, tailzeroedto, nldec, shrinkdue
+//@   ensures [F2-scheduled] forall j uint64 :: shrinkdue[j] ==> old(shrinkdue)[j] @C05
 //@   ensures [F1-freed] old(ip.Nlink) == 1 ==> ip.Kind == 0 && ip.Gen == old(ip.Gen) + 1 && ip.Size == 0 @C05 @C08
 //@   ensures [F1-kept] old(ip.Nlink) != 1 ==> ip.Kind == old(ip.Kind) && ip.Gen == old(ip.Gen) && ip.Size == old(ip.Size) @C05
 //@   ensures [S1-synced] !dirtyinum[ip.Inum] && othersClean(ip) @C10
@@ -366,6 +369,7 @@ package nfs
 //@   requires nfsInv(nfs) && txOpen(op) && noLocks() && op.Fs == nfs.fsstate && !muheld[base(nfs.shrinkst.mu)]
 //@   allocates $TXALLOC, $DIRALLOC
 //@   modifies $TXMODS, $FILEMODS, $DIRMODS, $SHRINKMODS
+//@   ensures [F2-scheduled] forall j uint64 :: shrinkdue[j] ==> old(shrinkdue)[j] @C05
 //@   ensures [open] txOpen(result0) && allClean() && result0.Fs == nfs.fsstate && !muheld[base(nfs.shrinkst.mu)] @C09
 //@   ensures [H1-dir] result3 == 0 ==> result1 != nil && held[result1.Inum] && inodeInv(result1) && matches(result1, dfh) && result1.Kind != 0 && (result1.Kind == 2 ==> dirShape(result1) && dnames[result1.Inum][name] == 0) @C08 @C04
 //@   ensures [F6-newinum] result3 == 0 ==> freshinum[result2.Inum] @C05 @C04
@@ -381,6 +385,7 @@ package nfs
 //@   requires rpcPre(nfs)
 //@   allocates $TXALLOC, $DIRALLOC
 //@   modifies $TXMODS, $FILEMODS, $DIRMODS, $SHRINKMODS, dnames, shrinker.ShrinkerSt.nthread
+//@   ensures [F2-scheduled] forall j uint64 :: shrinkdue[j] ==> old(shrinkdue)[j] @C05
 //@   ensures [open] txOpen(op) && op.Fs == nfs.fsstate && !muheld[base(nfs.shrinkst.mu)] @C09
 //@   ensures [S1-clean] allClean() @C10
 //@   ensures [A2-rollback] forall i uint64 :: dirtyinum[i] ==> wroteinum[i] @C09
@@ -394,6 +399,7 @@ package nfs
 //@   requires rpcPre(nfs)
 //@   allocates $TXALLOC, $DIRALLOC, nfstypes.CREATE3res
 //@   modifies $TXMODS, $FILEMODS, $DIRMODS, $SHRINKMODS, dnames, shrinker.ShrinkerSt.nthread
+//@   ensures [F2-scheduled] forall j uint64 :: shrinkdue[j] ==> old(shrinkdue)[j] @C05
 //@   ensures [R2-durable] result.Status == 0 ==> lastst == 1 @C01 @C07
 //@   ensures [A1-aborted] result.Status != 0 && result.Status != 10004 ==> lastst == 3 || lastst == 4 @C09
 //@   ensures [Fn6-exclusive] args.How.Mode == 2 ==> result.Status == 10004 && dnames == old(dnames) @C02
@@ -405,6 +411,7 @@ package nfs
 //@   requires rpcPre(nfs)
 //@   allocates $TXALLOC, $DIRALLOC, nfstypes.MKDIR3res
 //@   modifies $TXMODS, $FILEMODS, $DIRMODS, $SHRINKMODS, dnames, shrinker.ShrinkerSt.nthread
+//@   ensures [F2-scheduled] forall j uint64 :: shrinkdue[j] ==> old(shrinkdue)[j] @C05
 //@   ensures [R2-durable] result.Status == 0 ==> lastst == 1 @C01 @C07
 //@   ensures [A1-aborted] result.Status != 0 ==> lastst == 3 || lastst == 4 @C09
 //@   ensures [H3-handle] result.Status == 0 ==> result.Resok.Obj.Handle_follows && len(result.Resok.Obj.Handle.Data) == 16 && uint64(result.Resok.Obj_attributes.Attributes.Fileid) == le64(result.Resok.Obj.Handle.Data, 0) && result.Resok.Obj_attributes.Attributes.Ftype == 2 @C08 @C02
@@ -415,6 +422,7 @@ package nfs
 //@   requires rpcPre(nfs)
 //@   allocates $TXALLOC, $DIRALLOC, nfstypes.SYMLINK3res
 //@   modifies $TXMODS, $FILEMODS, $DIRMODS, $SHRINKMODS, dnames, shrinker.ShrinkerSt.nthread
+//@   ensures [F2-scheduled] forall j uint64 :: shrinkdue[j] ==> old(shrinkdue)[j] @C05
 //@   ensures [R2-durable] result.Status == 0 ==> lastst == 1 @C01 @C07
 //@   ensures [A1-aborted] result.Status != 0 ==> lastst == 3 || lastst == 4 @C09
 //@   ensures [H3-handle] result.Status == 0 ==> result.Resok.Obj.Handle_follows && len(result.Resok.Obj.Handle.Data) == 16 && uint64(result.Resok.Obj_attributes.Attributes.Fileid) == le64(result.Resok.Obj.Handle.Data, 0) && result.Resok.Obj_attributes.Attributes.Ftype == 5 @C08 @C02
@@ -426,6 +434,7 @@ package nfs
 //@   requires rpcPre(nfs)
 //@   allocates $TXALLOC, $DIRALLOC, struct:struct{}
 //@   modifies $TXMODS, $FILEMODS, $DIRMODS, $SHRINKMODS, dnames, sortperm, shrinker.ShrinkerSt.nthread
+//@   ensures [F2-scheduled] forall j uint64 :: shrinkdue[j] ==> old(shrinkdue)[j] @C05
 //@   ensures [open] txOpen(result0) && result0.Fs == nfs.fsstate && !muheld[base(nfs.shrinkst.mu)] @C09
 //@   ensures [S1-clean] allClean() @C10
 //@   ensures [A2-rollback] forall i uint64 :: dirtyinum[i] ==> wroteinum[i] @C09
@@ -438,6 +447,7 @@ package nfs
 //@   requires rpcPre(nfs)
 //@   allocates $TXALLOC, $DIRALLOC, nfstypes.REMOVE3res, struct:struct{}
 //@   modifies $TXMODS, $FILEMODS, $DIRMODS, $SHRINKMODS, dnames, sortperm, shrinker.ShrinkerSt.nthread
+//@   ensures [F2-scheduled] forall j uint64 :: shrinkdue[j] ==> old(shrinkdue)[j] @C05
 //@   ensures [R2-durable] result.Status == 0 ==> lastst == 1 @C01 @C07
 //@   ensures [A1-aborted] result.Status != 0 ==> lastst == 3 || lastst == 4 @C09
 //@   ensures [L2-quiet] rpcPost(nfs) @C03 @C06 @C14
@@ -447,6 +457,7 @@ package nfs
 //@   requires rpcPre(nfs)
 //@   allocates $TXALLOC, $DIRALLOC, nfstypes.RMDIR3res, struct:struct{}
 //@   modifies $TXMODS, $FILEMODS, $DIRMODS, $SHRINKMODS, dnames, sortperm, shrinker.ShrinkerSt.nthread
+//@   ensures [F2-scheduled] forall j uint64 :: shrinkdue[j] ==> old(shrinkdue)[j] @C05
 //@   ensures [R2-durable] result.Status == 0 ==> lastst == 1 @C01 @C07
 //@   ensures [A1-aborted] result.Status != 0 ==> lastst == 3 || lastst == 4 @C09
 //@   ensures [L2-quiet] rpcPost(nfs) @C03 @C06 @C14
@@ -478,6 +489,7 @@ package nfs
 //@   requires rpcPre(nfs)
 //@   allocates $TXALLOC, $DIRALLOC, nfstypes.RENAME3res, struct:struct{}
 //@   modifies $TXMODS, $FILEMODS, $DIRMODS, $SHRINKMODS, dnames, sortperm, shrinker.ShrinkerSt.nthread
+//@   ensures [F2-scheduled] forall j uint64 :: shrinkdue[j] ==> old(shrinkdue)[j] @C05
 //@   ensures [R2-durable] result.Status == 0 ==> lastst == 1 @C01 @C07
 //@   ensures [A1-aborted] result.Status != 0 ==> lastst == 3 || lastst == 4 @C09
 //@   ensures [Fn5-renamed] result.Status == 0 ==> dnames[fhIno(args.To.Dir)][args.To.Name] != 0 @C02
@@ -485,6 +497,7 @@ package nfs
 //@   ensures [L2-quiet] rpcPost(nfs) @C03 @C06 @C14
 //@   loop 0 invariant nfsInv(nfs) && !muheld[base(nfs.shrinkst.mu)] && dirtyInv() && allocInv()
 //@   loop 0 invariant [retry-idle] !done && (!success ==> noLocks()) @C06
+//@   loop 0 invariant [no-new-dues] forall j uint64 :: shrinkdue[j] ==> old(shrinkdue)[j]
 //@   loop 0 invariant [ready-tx] success ==> txOpen(op) && op.Fs == nfs.fsstate && allClean() && (forall i uint64 :: dirtyinum[i] ==> wroteinum[i])
 //@   loop 0 invariant [ready-dirs] success ==> renDirs(dipfrom, dipto, args)
 //@   loop 0 invariant [ready-names] success ==> renNames(dipfrom, dipto, frominum, args)
@@ -506,6 +519,7 @@ package nfs
 //@   panic_assumed "makeRootDir"
 //@   ensures [K4-rootdir-durable] lastst == 1 && noLocks() @C01
 //@   modifies $TXMODS, $FILEMODS, $DIRMODS, $SHRINKMODS, dnames
+//@   ensures [F2-scheduled] forall j uint64 :: shrinkdue[j] ==> old(shrinkdue)[j] @C05
 
 //@ spec MakeNfs(d)
 //@   props C01 C10 C15 C11
